@@ -364,6 +364,44 @@ func c03entry(r *core.Run, ti *terminfo.Terminfo, ei int) {
 		r.Case(ti.Name + "|altrune|" + string(ch))
 	}
 
+	// ESC followed by a character that could also begin a key sequence ('[', 'O', '?'), and then
+	// nothing until the timeout: the character with Alt, as for any other key
+	for _, ch := range "[O?" {
+		if _, clash := desc["\x1b"+string(ch)]; clash {
+			continue
+		}
+		evs, ok := dec("\x1b" + string(ch))
+		if ok && (len(evs) != 1 || evs[0].Key != tcell.KeyRune || evs[0].Rune != ch || evs[0].Mod != tcell.ModAlt) {
+			fail("alt-prefix:rune-that-starts-sequences", fmt.Sprintf("ESC %q and then the escape timeout decode to %s, expected the rune with Alt", ch, evsStr(evs)), string(ch))
+		}
+		r.Case(ti.Name + "|altrune|" + string(ch))
+	}
+	// ESC followed by a non-ASCII character, the read boundary inside the character
+	for _, ch := range "é世😀" {
+		b := []byte(string(ch))
+		evs, ok := dec("\x1b" + string(ch))
+		if !ok {
+			continue
+		}
+		if len(evs) != 1 || evs[0].Key != tcell.KeyRune || evs[0].Rune != ch || evs[0].Mod != tcell.ModAlt {
+			fail("alt-prefix:rune", fmt.Sprintf("ESC %q decodes to %s, expected the rune with Alt", ch, evsStr(evs)), string(ch))
+			continue
+		}
+		for cut := 1; cut < len(b); cut++ {
+			parts := [][]byte{append([]byte{0x1b}, b[:cut]...), b[cut:]}
+			if evs2, left2, pan2 := d.chunks(parts); pan2 != nil || left2 != 0 || !evsEq(evs2, evs) {
+				fail("alt-prefix:split-read:multibyte", fmt.Sprintf("ESC and %q arriving as %q (no timeout in between) decode to %s (leftover %d, panic %v); in one read they decode to %s", ch, parts, evsStr(evs2), left2, pan2, evsStr(evs)), string(ch))
+				break
+			}
+			parts = [][]byte{{0x1b}, b[:cut], b[cut:]}
+			if evs2, left2, pan2 := d.chunks(parts); pan2 != nil || left2 != 0 || !evsEq(evs2, evs) {
+				fail("alt-prefix:split-read:multibyte", fmt.Sprintf("ESC and %q arriving as %q (no timeout in between) decode to %s (leftover %d, panic %v); in one read they decode to %s", ch, parts, evsStr(evs2), left2, pan2, evsStr(evs)), string(ch))
+				break
+			}
+		}
+		r.Case(ti.Name + "|altrune|" + string(ch))
+	}
+
 	// --- xterm modifiers ---
 	var modSeqs []string
 	modWant := map[string]km{}
